@@ -56,6 +56,10 @@ def launch_rules(ctx, fam):
                 gate = (c, a)
         if gate is None or not gate[0].pol:
             n_ungated += 1
+            ctx.check(not p.calls('_send_packet') and
+                      not p.calls('_send_eio_packet'), construct,
+                      'not connected to the namespace: nothing is answered',
+                      key='ungated-answer', where=w, rid='C05.R2')
             ctx.check(not launches, construct, 'not connected to the '
                       'namespace: no handler is launched', key='ungated',
                       reason='a handler is launched on the path %s'
